@@ -63,6 +63,7 @@ func Run(o *drv.Out) {
 	consts(o)
 	// the permanent scenarios first: when they fail, theirs is the specific signature to report
 	t0 := time.Now()
+	splitSweep(o)
 	dialAttribution(o, base)
 	malformedFrameCases(o, base)
 	slowConsumerCases(o, base)
@@ -79,6 +80,7 @@ func Run(o *drv.Out) {
 	overLimitCases(o, base)
 	o.Extra["c18_overlimit_s"] = time.Since(t0).Seconds()
 	if o.Tier == "thorough" {
+		nearLimitSend(o, base)
 		partialEnqueue(o, base)
 		raceRun(o)
 	}
